@@ -222,6 +222,11 @@ func Build(s Spec, mons ...vnet.Monitor) *Built {
 		cfg.K = vnet.Knobs{PDrop: 0.02, PDup: 0.08, PEarlyTimer: 0.01, PStaleTimer: 0.01, PAdvance: 0.02,
 			PDelayReset: 0.5, PTimeoutDecided: 0.05, PNewTx: 0.02, PTxMissing: 0.2, PSupply: 0.15, PUnasked: 0.003, PSyncLedger: 0.002, PNotify: 0.05, SlowNode: -1, ResetDelayNode: -1}
 		initTx = r.Intn(8)
+		if cfg.AMEV > 0 {
+			// anti-MEV switches on in the middle of the run: let lagging nodes often get the block before the
+			// enabling height from the ledger while their instance still works on it (Reset pending)
+			cfg.K.PSyncLedger = 0.03
+		}
 	case "byz", "byz-flips":
 		cfg = baseConfig(s, r, Opt{Ns: []int{4, 4, 4, 5, 6, 7, 7, 10}})
 		byzFlips = s.Profile == "byz-flips"
